@@ -334,15 +334,34 @@ def _hist_from_key(key):
     return int(m.group(1)) if m else None
 
 
-class Prog:
-    """one simulator instance + the reference"""
+def mps_dense(arrs):
+    """dense tensor of an open MPS given as (r,p) / (l,r,p) / (l,p) arrays (or a single (p,) array)"""
+    if len(arrs) == 1:
+        return np.asarray(arrs[0])
+    cur = np.moveaxis(arrs[0], 0, -1)
+    for a in arrs[1:-1]:
+        cur = np.moveaxis(np.tensordot(cur, a, ([-1], [0])), -2, -1)
+    return np.tensordot(cur, arrs[-1], ([-1], [0]))
 
-    def __init__(self, qtn, rng, pid, quick):
+
+_SHAPES = {2: [[(0, 1)]], 3: [[(0, 1), (1, 2)], [(0, 1), (1, 2), (0, 2)]],
+           4: [[(0, 1), (1, 3), (3, 2), (2, 0)], [(0, 1), (0, 2), (0, 3)], [(0, 1), (1, 2), (2, 3)]],
+           5: [[(0, 1), (1, 2), (2, 3), (3, 4)], [(0, 1), (0, 2), (0, 3), (0, 4)], [(0, 1), (1, 2), (2, 3), (3, 4), (4, 0)]],
+           6: [[(0, 1), (1, 2), (3, 4), (4, 5), (0, 3), (1, 4), (2, 5)], [(0, 1), (1, 2), (2, 3), (3, 4), (4, 5)]]}
+
+MPS_KINDS = ("CircuitMPS", "CircuitPermMPS", "CircuitMPSLazy")
+
+
+class Prog:
+    """one simulator instance + the reference state of the gates recorded so far"""
+
+    def __init__(self, qtn, rng, pid):
         self.qtn, self.rng, self.pid = qtn, rng, pid
-        kinds = ["Circuit"] * 5 + ["CircuitDense"] * 2 + ["CircuitMPS"] * 4 + ["CircuitPermMPS"] * 2 + ["CircuitMPSLazy"] * 2 + \
+        kinds = ["Circuit"] * 6 + ["CircuitDense"] * 2 + ["CircuitMPS"] * 4 + ["CircuitPermMPS"] * 2 + ["CircuitMPSLazy"] * 2 + \
             ["PEPS", "PEPO"]
         self.kind = str(rng.choice(kinds))
-        self.N = N = int(rng.integers(1, 7)) if self.kind in ("Circuit", "CircuitDense", "CircuitMPS") else int(rng.integers(2, 7))
+        lowN = 1 if self.kind in ("Circuit", "CircuitDense", "CircuitMPS") else 2
+        self.N = N = int(rng.integers(lowN, 7))
         self.style = str(rng.choice(["generic", "generic", "sparse"]))
         self.opts = {}
         self.tight = True
@@ -351,18 +370,22 @@ class Prog:
         self.ref = np.zeros((2,) * N, dtype=complex)
         self.ref[(0,) * N] = 1.0
         self.has_psi0 = False
+        self.psi0_kind = "none"
         if self.kind not in ("PEPS", "PEPO") and N >= 2 and rng.integers(0, 5) == 0:
-            chi = int(rng.integers(1, 3))
+            # an entangled MPS (bond 2), a product state with normalised factors, or (rarely) a product state whose
+            # factors are only normalised as a whole
+            self.psi0_kind = str(rng.choice(["chi2", "chi2", "chi2", "chi1n", "chi1n", "chi1"]))
+            chi = 2 if self.psi0_kind == "chi2" else 1
             arrs = []
             for i in range(N):
                 shp = ([chi] if i > 0 else []) + ([chi] if i < N - 1 else []) + [2]
-                arrs.append(rng.normal(size=shp) + 1j * rng.normal(size=shp))
-            d = arrs[0]
-            for a in arrs[1:]:
-                d = np.tensordot(d, a, ([-2 if d.ndim > 1 and a.ndim == 3 else -2], [0])) if False else _chain(d, a)
-            nrm = np.linalg.norm(d)
+                a = rng.normal(size=shp) + 1j * rng.normal(size=shp)
+                if self.psi0_kind == "chi1n":
+                    a = a / np.linalg.norm(a)
+                arrs.append(a)
+            nrm = np.linalg.norm(mps_dense(arrs))
             arrs[0] = arrs[0] / nrm
-            self.ref = (d / nrm).astype(complex)
+            self.ref = mps_dense(arrs).astype(complex)
             psi0 = qtn.MatrixProductState(arrs)
             self.has_psi0 = True
         kw = {}
@@ -404,64 +427,820 @@ class Prog:
                 self.opts["cutoff"] = 0.0
             else:
                 self.tight = False
-            if kw["method"] == "dm":
-                self.tight = False
             self.opts.update(method=kw["method"], compress_every=kw["compress_every"])
             self.circ = qtn.CircuitMPSLazy(N, **kw)
         else:
-            # small lattices: line, ring, 2x2 / 2x3 grid, star
-            shapes = {2: [[(0, 1)]], 3: [[(0, 1), (1, 2)], [(0, 1), (1, 2), (0, 2)]],
-                      4: [[(0, 1), (1, 3), (3, 2), (2, 0)], [(0, 1), (0, 2), (0, 3)], [(0, 1), (1, 2), (2, 3)]],
-                      5: [[(0, 1), (1, 2), (2, 3), (3, 4)], [(0, 1), (0, 2), (0, 3), (0, 4)], [(0, 1), (1, 2), (2, 3), (3, 4), (4, 0)]],
-                      6: [[(0, 1), (1, 2), (3, 4), (4, 5), (0, 3), (1, 4), (2, 5)], [(0, 1), (1, 2), (2, 3), (3, 4), (4, 5)]]}
-            self.edges = shapes[N][int(rng.integers(0, len(shapes[N])))]
+            self.edges = _SHAPES[N][int(rng.integers(0, len(_SHAPES[N])))]
             self.tight = False
             cls = qtn.CircuitPEPSSimpleUpdate if self.kind == "PEPS" else qtn.CircuitPEPOSimpleUpdate
-            self.circ = cls(edges=self.edges, cutoff=0.0) if rng.integers(0, 2) else cls(edges=self.edges)
-        self.U = None
-        if not self.has_psi0 and N <= 4 and self.kind == "Circuit":
-            self.U = np.eye(2 ** N, dtype=complex).reshape((2,) * N + (2 ** N,))
-        self.glist = []  # recorded gates: (U matrix, qubits, controls, label, params, parametrized)
+            if rng.integers(0, 2):
+                self.circ = cls(edges=self.edges, cutoff=0.0)
+                self.opts["cutoff"] = 0.0
+            else:
+                self.circ = cls(edges=self.edges)
+            self.opts["edges"] = len(self.edges)
+        self.track_U = (not self.has_psi0) and N <= 4 and self.kind == "Circuit"
+        self.glist = []  # recorded gates: [matrix, qubits, controls, label, params, parametrized]
         self.psi0_ref = self.ref.copy()
-        self.flags = dict(copied_since_gate=False, mps_record_risk="none", rejected=False)
-        self.n2q = 0
+        self.U = None
+        self.recompute()
+        self.flags = dict(copied_since_gate=False, mps_record_risk="none", rejected_before=False, contract_true_gate=False)
+        self.last = {}
+        self.quirks = set()
 
-    # -- tolerances
+    def base(self):
+        d = dict(prog=self.pid, cls=self.kind, N=self.N, style=self.style, psi0=self.psi0_kind,
+                 quirks="+".join(sorted(self.quirks)))
+        d.update({k: str(v) for k, v in self.opts.items()})
+        return d
+
     def tol(self, single=False):
         if single:
             return 2e-4
+        if self.kind == "CircuitMPSLazy" and self.opts.get("method") == "dm":
+            return 1e-6 if self.tight else 1e-4
         if self.tight:
             return 1e-8
         return 1e-4  # documented default cutoff 1e-10 on the discarded weight: up to 1e-5 per split
 
     def recompute(self):
         ref = self.psi0_ref.copy()
-        U = None if self.U is None else np.eye(2 ** self.N, dtype=complex).reshape((2,) * self.N + (2 ** self.N,))
-        for (M, qs, cs, _, _, _) in self.glist:
-            ref = apply_dense(ref, M, qs, cs)
+        U = np.eye(2 ** self.N, dtype=complex).reshape((2,) * self.N + (2 ** self.N,)) if self.track_U else None
+        for g in self.glist:
+            ref = apply_dense(ref, g[0], g[1], g[2])
             if U is not None:
-                U = apply_dense(U, M, qs, cs)
+                U = apply_dense(U, g[0], g[1], g[2])
         self.ref, self.U = ref, U
 
+    def record(self, g):
+        self.glist.append(g)
+        self.ref = apply_dense(self.ref, g[0], g[1], g[2])
+        if self.U is not None:
+            self.U = apply_dense(self.U, g[0], g[1], g[2])
 
-def _chain(d, a):
-    """contract the last-but-one axis structure of an MPS chain: d (..., r, p) with a (l, r, p) or (l, p)"""
-    # d has axes (p0, ..., p_{k-1}, r) after normalising the order below
-    if d.ndim == 2 and not hasattr(_chain, "_started"):
-        pass
-    return _chain_impl(d, a)
+    @property
+    def prob(self):
+        p = np.abs(self.ref) ** 2
+        return p / p.sum()
 
 
-def _chain_impl(d, a):
-    # convention: arrays are given as (r, p) first, (l, r, p) middle, (l, p) last; keep d as (phys..., bond)
-    if not isinstance(d, tuple):
-        d = ("raw", d)
-    tag, arr = d
-    if tag == "raw":
-        arr = np.moveaxis(arr, 0, -1)  # (r, p) -> (p, r)
-    if a.ndim == 3:
-        out = np.tensordot(arr, a, ([-1], [0]))  # (..., r, p)
-        out = np.moveaxis(out, -2, -1)  # (..., p, r)
-        return ("acc", out)
-    out = np.tensordot(arr, a, ([-1], [0]))  # (..., p)
-    return out
+def _pick_qubits(rng, N, n):
+    return [int(x) for x in rng.choice(N, size=n, replace=False)]
+
+
+def make_gate(P):
+    """draw a gate (outside any thunk): returns dict(label, params, qubits, controls, U, call, desc)"""
+    rng, N, qtn = P.rng, P.N, P.qtn
+    from quimb.tensor.circuit import gates as qg
+
+    labels_all = sorted(l for l in qg.ALL_GATES if l in TABLE)
+    raw = False
+    if P.style == "sparse" and rng.integers(0, 5):
+        label = str(rng.choice(_SPARSE_LABELS))
+    else:
+        k = int(rng.integers(0, 10))
+        if k == 0:
+            raw = True
+            label = "RAW"
+        else:
+            label = str(rng.choice(labels_all))
+    if raw:
+        nq = int(rng.choice([1, 1, 2, 2, 3]))
+    else:
+        nq = TABLE[label][0]
+    if nq > N:
+        label, nq, raw = "H", 1, False
+    nctrl = 0
+    if rng.integers(0, 6) == 0 and N - nq >= 1 and nq <= 2:
+        nctrl = int(rng.integers(1, min(2, N - nq) + 1))
+    if P.kind in ("PEPS", "PEPO") and nq == 2 and rng.integers(0, 4):
+        e = P.edges[int(rng.integers(0, len(P.edges)))]
+        qs = list(e) if rng.integers(0, 2) else list(e)[::-1]
+        nctrl = 0
+    else:
+        qs = _pick_qubits(rng, N, nq + nctrl)
+    qubits, controls = qs[:nq], qs[nq:]
+    if raw:
+        params = []
+        M = rand_unitary(rng, 2 ** nq)
+        Uin = M
+    else:
+        npar = TABLE[label][1]
+        if P.style == "sparse":
+            params = [float(rng.choice([0.0, np.pi, np.pi / 2, -np.pi / 2, 2 * np.pi])) for _ in range(npar)]
+        else:
+            params = [float(x) for x in rng.uniform(-3.5, 3.5, size=npar)]
+        M = table_matrix(label, params)
+        if M is None:
+            # weakly specified gate: the registry's own array defines it (checked by driver gate-vocabulary)
+            M = np.asarray(qtn.Gate(label, params, qubits=list(range(nq))).array, dtype=complex).reshape(2 ** nq, 2 ** nq)
+        Uin = None
+    parametrize = (not raw) and TABLE[label][1] > 0 and P.kind == "Circuit" and not controls and \
+        P.opts.get("gate_contract") in ("default", "False", "auto-split-gate") and rng.integers(0, 3) == 0
+    spelling = int(rng.integers(0, 4))
+    tensor_form = bool(rng.integers(0, 2))
+    gopts = {}
+    if P.kind == "Circuit" and rng.integers(0, 8) == 0 and not parametrize:
+        c = str(rng.choice(["auto-split-gate", "split-gate", "swap-split-gate", "False", "False", "True"]))
+        gopts["contract"] = {"False": False, "True": True}.get(c, c)
+    g = dict(label=label, params=params, qubits=qubits, controls=controls, M=M, parametrize=parametrize)
+
+    def call(circ):
+        kw = dict(gopts)
+        if controls:
+            kw["controls"] = controls
+        if raw:
+            A = Uin.reshape((2,) * (2 * nq)) if tensor_form else Uin
+            if spelling % 2:
+                circ.apply_gate_raw(A, qubits, **kw)
+            else:
+                circ.apply_gate(A, *qubits, **kw)
+            return
+        if parametrize:
+            kw["parametrize"] = True
+        if spelling == 0:
+            circ.apply_gate(label, *params, *qubits, **kw)
+        elif spelling == 1:
+            circ.apply_gate(label.lower(), params=params, qubits=qubits, **kw)
+        elif spelling == 2:
+            gate = qtn.Gate(label, params, qubits=qubits, controls=controls if controls else None, parametrize=parametrize)
+            kw.pop("controls", None)
+            kw.pop("parametrize", None)
+            circ.apply_gate(gate, **kw)
+        else:
+            kw.pop("controls", None)
+            if controls or parametrize:
+                circ.apply_gate(label, *params, *qubits, controls=controls if controls else None,
+                                **{k: v for k, v in kw.items()})
+            else:
+                circ.apply_gates([(label, *params, *qubits)], **kw)
+
+    g["call"] = call
+    g["desc"] = dict(label=label, qubits=_fmt(qubits), controls=_fmt(controls), nq=nq, parametrize=parametrize, spelling=spelling,
+                     gate_opt=str(gopts.get("contract", "")))
+    return g
+
+
+def do_gate(cx, P, g, tag="gate"):
+    """apply a gate under the accept-or-reject contract; updates the reference iff the gate was recorded"""
+    circ = P.circ
+    n0 = circ.num_gates
+    box = {}
+
+    def thunk():
+        box["ran"] = True
+        try:
+            g["call"](circ)
+        finally:
+            box["n1"] = circ.num_gates
+        if box["n1"] != n0 + 1:
+            return f"accepted without exception but num_gates went {n0} -> {box['n1']}"
+        return None
+
+    params = dict(P.base(), action=tag, step=P.step, **g["desc"])
+    r = cx.check("apply_gate: the gate is recorded once, or rejected by an exception", params, thunk,
+                 allow_reject=True, crash_is_violation=False)
+    if "ran" not in box:
+        try:
+            g["call"](circ)
+        except Exception:  # noqa
+            pass
+        box["n1"] = circ.num_gates
+    if box["n1"] == n0 + 1:
+        P.record([g["M"], g["qubits"], g["controls"], g["label"], list(g["params"]), g["parametrize"]])
+        P.flags["copied_since_gate"] = False
+        if g["desc"]["gate_opt"] == "True":
+            P.flags["contract_true_gate"] = True
+        if g["label"] == "IDEN" and g["controls"]:
+            P.quirks.add("ctrl-iden")
+        if g["label"] == "SWAP" and P.kind == "CircuitMPS" and P.opts.get("gate_contract") in ("auto-mps", "swap+split"):
+            P.flags["mps_record_risk"] = "swap"
+        return True
+    if box["n1"] != n0:
+        P.broken = f"num_gates went {n0} -> {box['n1']}"
+        return False
+    # rejected: the simulator must still hold the state of the gates actually recorded
+    res = {}
+
+    def intact():
+        res["ran"] = True
+        if P.kind == "PEPO":
+            return None
+        if P.kind in ("Circuit", "CircuitDense"):
+            # through a fresh copy of the network: Circuit.to_dense may answer from the (still valid) cache
+            got = np.asarray(circ.psi.to_dense([f"k{i}" for i in range(P.N)])).reshape(-1, 1)
+        else:
+            got = np.asarray(circ.to_dense())
+        return close(got, P.ref.reshape(-1, 1), P.tol(), "state after the rejected gate")
+
+    r2 = cx.check("apply_gate rejected: the simulator still holds the state of the gates recorded", params, intact)
+    if "ran" not in res:
+        try:
+            r2 = "ok" if intact() is None else "violation"
+        except Exception:  # noqa
+            r2 = "violation"
+    if r2 == "violation":
+        P.broken = "state corrupted by a rejected gate"
+    return False
+
+
+# ---- queries: each returns (name, extra params, thunk) with all random choices drawn before
+
+
+def _simp_opts(rng, P, allow_single=True):
+    """query options for the exact simulators; returns (kwargs, single precision?)"""
+    kw = {}
+    single = False
+    if P.kind in ("Circuit", "CircuitDense"):
+        k = int(rng.integers(0, 6))
+        if k == 0:
+            kw["simplify_sequence"] = str(rng.choice(["", "R", "ADCRS", "RL", "C", "AD"]))
+        if k == 1:
+            kw["simplify_equalize_norms"] = bool(rng.integers(0, 2))
+        if k == 2:
+            kw["simplify_atol"] = float(rng.choice([1e-12, 1e-10, 0.0]))
+        if rng.integers(0, 4):
+            kw["optimize"] = str(rng.choice(["greedy", "auto"]))
+        if allow_single and rng.integers(0, 5) == 0:
+            kw["dtype"] = str(rng.choice(["complex64", "complex128"]))
+            single = kw["dtype"] == "complex64"
+    return kw, single
+
+
+def q_to_dense(P):
+    rng = P.rng
+    reverse = bool(rng.integers(0, 4) == 0) and P.kind != "PEPS"
+    kw, single = _simp_opts(rng, P) if P.kind in ("Circuit", "CircuitDense") else ({}, False)
+    if P.kind in MPS_KINDS and rng.integers(0, 5) == 0:
+        kw["dtype"] = "complex64"
+        single = True
+    if reverse:
+        kw["reverse"] = True
+
+    def thunk():
+        got = np.asarray(P.circ.to_dense(**kw))
+        ref = P.ref
+        if reverse:
+            ref = np.transpose(ref, list(range(P.N))[::-1])
+        return close(got, ref.reshape(-1, 1), P.tol(single), "to_dense")
+
+    return "to_dense", dict(opts=str(sorted(kw.items()))), thunk
+
+
+def q_amplitude(P):
+    rng, N = P.rng, P.N
+    nb = int(rng.integers(1, 4))
+    bs = []
+    flat = np.abs(P.ref).ravel()
+    for k in range(nb):
+        if k == 0 and flat.max() > 0:
+            x = int(np.argmax(flat))  # a string in the support
+        else:
+            x = int(rng.integers(0, 2 ** N))
+        bs.append(format(x, f"0{N}b"))
+    as_ints = bool(rng.integers(0, 4) == 0)
+    kw, single = _simp_opts(rng, P) if P.kind in ("Circuit", "CircuitDense") else ({}, False)
+
+    def thunk():
+        for b in bs:
+            arg = [int(c) for c in b] if as_ints else b
+            got = P.circ.amplitude(arg, **kw)
+            if np.ndim(got) != 0:
+                return f"amplitude returned shape {np.shape(got)}"
+            m = close(complex(got), complex(P.ref[tuple(int(c) for c in b)]), P.tol(single), f"amplitude({b})")
+            if m:
+                return m
+        return None
+
+    zero = any(abs(P.ref[tuple(int(c) for c in b)]) < 1e-12 for b in bs)
+    return "amplitude", dict(bits=",".join(bs), as_ints=as_ints, has_zero_amplitude=zero,
+                             seq=str(kw.get("simplify_sequence", "default")), equalize=str(kw.get("simplify_equalize_norms", "default")),
+                             opts=str(sorted(kw.items()))), thunk
+
+
+def q_uni(P):
+    transposed = bool(P.rng.integers(0, 3) == 0)
+
+    def thunk():
+        Uop = P.circ.get_uni(transposed=True) if transposed else P.circ.uni
+        outer = set(Uop.outer_inds())
+        up = [i for i in range(P.N) if f"k{i}" in outer]
+        lo = [i for i in range(P.N) if f"b{i}" in outer]
+        want = P.U.reshape(2 ** P.N, 2 ** P.N)
+        want = want.T if transposed else want
+        if up != lo:
+            return f"operator network has upper wires {up} but lower wires {lo}"
+        extra = outer - {f"k{i}" for i in up} - {f"b{i}" for i in lo}
+        if extra:
+            return f"operator network has dangling labels {sorted(extra)}"
+        # wires that carry no tensor are the identity
+        if up:
+            got = np.asarray(Uop.to_dense([f"k{i}" for i in up], [f"b{i}" for i in lo]))
+        else:
+            got = np.ones((1, 1))
+        full = np.eye(2 ** P.N, dtype=complex).reshape((2,) * P.N + (2 ** P.N,))
+        full = apply_dense(full, got, up).reshape(2 ** P.N, 2 ** P.N)
+        return close(full, want, P.tol(), "unitary of the circuit (idle wires read as identity)")
+
+    contracted = P.opts.get("gate_contract") == "True" or P.flags.get("contract_true_gate", False)
+    return "uni", dict(transposed=transposed, gate_contracted_into_state=contracted), thunk
+
+
+def _where(P, key, nmax=2):
+    rng, N = P.rng, P.N
+    if key in P.last and rng.integers(0, 2):
+        return P.last[key]
+    n = int(rng.integers(1, min(nmax, N) + 1))
+    w = tuple(_pick_qubits(rng, N, n))
+    P.last[key] = w
+    return w
+
+
+def q_partial_trace(P):
+    rng = P.rng
+    keep = _where(P, "keep", 3)
+    as_int = len(keep) == 1 and bool(rng.integers(0, 2))
+    kw, single = _simp_opts(rng, P) if P.kind in ("Circuit", "CircuitDense") else ({}, False)
+
+    def thunk():
+        got = np.asarray(P.circ.partial_trace(keep[0] if as_int else keep, **kw))
+        return close(got, rdm(P.ref, keep), P.tol(single), f"partial_trace{keep}")
+
+    return "partial_trace", dict(keep=_fmt(keep), as_int=as_int, opts=str(sorted(kw.items()))), thunk
+
+
+def q_local_expectation(P):
+    rng = P.rng
+    if P.kind == "PEPO":
+        if rng.integers(0, 2):
+            where = (int(rng.integers(0, P.N)),)
+        else:
+            e = P.edges[int(rng.integers(0, len(P.edges)))]
+            where = tuple(e) if rng.integers(0, 2) else tuple(e)[::-1]
+    else:
+        where = _where(P, "where", 2)
+    n = len(where)
+    G = rng.normal(size=(2 ** n, 2 ** n)) + 1j * rng.normal(size=(2 ** n, 2 ** n))
+    G2 = rng.normal(size=(2 ** n, 2 ** n)) + 1j * rng.normal(size=(2 ** n, 2 ** n))
+    as_int = n == 1 and bool(rng.integers(0, 2))
+    many = P.kind in ("Circuit", "CircuitDense") and bool(rng.integers(0, 4) == 0)
+    kw, single = ({}, False)
+    on_copy = False
+    if P.kind in ("Circuit", "CircuitDense"):
+        kw, single = _simp_opts(rng, P)
+    elif P.kind in MPS_KINDS:
+        if rng.integers(0, 3) == 0:
+            kw["normalized"] = bool(rng.integers(0, 2))
+        if rng.integers(0, 8) == 0:
+            kw["dtype"] = str(rng.choice(["complex64", "complex128"]))
+            single = kw["dtype"] == "complex64"
+        on_copy = "dtype" in kw or P.opts.get("convert_eager") is False
+    risk = P.flags["mps_record_risk"]
+
+    def thunk():
+        w = where[0] if as_int else where
+        rho = rdm(P.ref, where)
+        if many:
+            got = P.circ.local_expectation([G, G2], w, **kw)
+            if not isinstance(got, tuple) or len(got) != 2:
+                return f"returned {type(got).__name__}"
+            want = [np.trace(G @ rho), np.trace(G2 @ rho)]
+            return close(np.array([complex(x) for x in got]), np.array(want), P.tol(single) * 10, f"local_expectation{where}")
+        got = P.circ.local_expectation(G, w, **kw)
+        if np.ndim(got) != 0:
+            return f"returned shape {np.shape(got)}"
+        return close(complex(got), complex(np.trace(G @ rho)), P.tol(single) * 10, f"local_expectation{where}")
+
+    def after():
+        if on_copy and P.kind in MPS_KINDS:
+            P.flags["mps_record_risk"] = "copy_le"
+
+    return "local_expectation", dict(where=_fmt(where), as_int=as_int, many=many, on_copy=on_copy, record_risk=risk,
+                                     opts=str(sorted(kw.items()))), thunk, after
+
+
+def _pick_fix(P, where, want_zero=False):
+    """fixed outcomes on some other qubits, by default with non-zero probability"""
+    rng, N = P.rng, P.N
+    others = [q for q in range(N) if q not in where]
+    nf = int(rng.integers(0, len(others) + 1))
+    fq = [int(x) for x in rng.choice(others, size=nf, replace=False)] if nf else []
+    # take the bits of a likely basis string
+    flat = P.prob.ravel()
+    x = int(rng.choice(len(flat), p=flat))
+    bits = format(x, f"0{N}b")
+    fix = {q: bits[q] for q in fq}
+    return fix
+
+
+def q_compute_marginal(P):
+    rng = P.rng
+    where = _where(P, "mwhere", 3)
+    fix = _pick_fix(P, where)
+    use_fix = bool(fix) or bool(rng.integers(0, 2))
+    kw = {}
+    single = P.kind in ("Circuit", "CircuitDense")
+    if P.kind in ("Circuit", "CircuitDense"):
+        if rng.integers(0, 3) == 0:
+            kw["dtype"] = "complex128"
+            kw["simplify_atol"] = 1e-12
+            single = False
+        if rng.integers(0, 4):
+            kw["optimize"] = str(rng.choice(["greedy", "auto"]))
+    fix_ints = bool(rng.integers(0, 4) == 0)
+
+    def thunk():
+        f = ({q: int(b) for q, b in fix.items()} if fix_ints else dict(fix)) if use_fix else None
+        got = np.asarray(P.circ.compute_marginal(where, fix=f, **kw))
+        want = marginal(P.prob, list(where), fix)
+        return close(got, want, P.tol(single), f"compute_marginal{where} fix={fix}")
+
+    return "compute_marginal", dict(where=_fmt(where), fix=str(sorted(fix.items())), fix_given=use_fix, fix_ints=fix_ints,
+                                    opts=str(sorted(kw.items()))), thunk
+
+
+def _sample_plan(P, exact_opts=True):
+    """arguments of a sample() call and the groups of qubits whose joint conditional is inverted at one uniform draw"""
+    rng, N = P.rng, P.N
+    kw = {}
+    if P.kind in ("Circuit", "CircuitDense"):
+        qubits = list(range(N))
+        if rng.integers(0, 4) == 0:
+            qubits = _pick_qubits(rng, N, int(rng.integers(1, N + 1)))
+            kw["qubits"] = qubits
+        if rng.integers(0, 2):
+            order = [int(x) for x in rng.permutation(qubits)]
+            gs = int(rng.choice([1, 2, 3, 10]))
+            kw["order"] = order
+            kw["group_size"] = gs
+            groups = [sorted(order[k:k + gs]) for k in range(0, len(order), gs)]
+        else:
+            groups = [sorted(qubits)]
+        single = True
+        if rng.integers(0, 3) == 0:
+            kw["dtype"] = "complex128"
+            kw["simplify_atol"] = 1e-12
+            single = False
+        if rng.integers(0, 4):
+            kw["optimize"] = str(rng.choice(["greedy", "auto"]))
+        return kw, qubits, groups, single
+    return kw, list(range(N)), None, False
+
+
+def _mps_groups(P):
+    circ = P.circ
+    order = list(getattr(circ, "qubits", range(P.N)))  # physical site s holds logical qubit order[s]
+    return [[q] for q in order]
+
+
+def _check_samples(samples, probs, qubits_out, groups, seed, tol):
+    """samples[k] drawn while the reference distribution was probs[k]; one uniform per group"""
+    r2 = np.random.default_rng(seed)
+    for b, prob in zip(samples, probs):
+        if not isinstance(b, str) or len(b) != len(qubits_out) or any(c not in "01" for c in b):
+            return f"sample {b!r} is not a bit string over {qubits_out}"
+        bit = {q: b[k] for k, q in enumerate(qubits_out)}
+        result = {}
+        for grp in groups:
+            p = marginal(prob, grp, result)
+            u = r2.random()
+            x = int("".join(bit[q] for q in grp), 2)
+            if p.sum() <= 0 or not cdf_consistent(u, p, x, tol):
+                pc = (p / p.sum()).ravel().round(5).tolist() if p.sum() > 0 else None
+                return (f"sample {b}: outcome {format(x, f'0{len(grp)}b')} of qubits {grp} given {result} is inconsistent with "
+                        f"the reference conditional {pc} at the uniform draw {u:.6f}")
+            for q in grp:
+                result[q] = bit[q]
+    return None
+
+
+def q_sample(P):
+    rng = P.rng
+    kw, qubits_out, groups, single = _sample_plan(P)
+    C = int(rng.integers(1, 4))
+    seed = int(rng.integers(0, 1 << 30))
+    copied = P.flags["copied_since_gate"]
+
+    def thunk():
+        grp = groups if groups is not None else _mps_groups(P)
+        got = list(P.circ.sample(C, seed=seed, **kw))
+        if len(got) != C:
+            return f"{len(got)} samples != {C}"
+        return _check_samples(got, [P.prob] * C, qubits_out, grp, seed, 2e-3 if single else 1e-6)
+
+    return "sample", dict(C=C, copied_since_gate=copied, opts=str(sorted((k, str(v)) for k, v in kw.items()))), thunk
+
+
+def q_sample_interleaved(cx, P):
+    """advance a sample generator, apply a gate, continue: later samples must describe the gates applied so far"""
+    rng = P.rng
+    kw, qubits_out, groups, single = _sample_plan(P)
+    seed = int(rng.integers(0, 1 << 30))
+    g = make_gate(P)
+    copied = P.flags["copied_since_gate"]
+    box = {}
+    params = dict(P.base(), action="sample_interleaved", step=P.step, copied_since_gate=copied,
+                  opts=str(sorted((k, str(v)) for k, v in kw.items())), gate=g["desc"]["label"])
+
+    def first():
+        box["it"] = P.circ.sample(3, seed=seed, **kw)
+        box["grp"] = groups if groups is not None else _mps_groups(P)
+        b = next(box["it"])
+        box["b1"] = b
+        return _check_samples([b], [P.prob], qubits_out, box["grp"], seed, 2e-3 if single else 1e-6)
+
+    r = cx.check("sample: first sample of a generator agrees with the state", dict(params, phase="before-gate"), first)
+    if "it" not in box:
+        try:
+            first()
+        except Exception:  # noqa
+            return
+    if "b1" not in box:
+        return
+    prob1 = P.prob
+    ok = do_gate(cx, P, g, tag="gate-during-sampling")
+    changed = bool(np.abs(P.prob - prob1).max() > 1e-6)
+
+    def second():
+        b2 = next(box["it"])
+        grp2 = groups if groups is not None else _mps_groups(P)
+        # replay the uniform stream: the first sample consumed len(groups) draws
+        r2 = np.random.default_rng(seed)
+        for _ in box["grp"]:
+            r2.random()
+        bit = {q: b2[k] for k, q in enumerate(qubits_out)}
+        result = {}
+        prob = P.prob
+        for grp in grp2:
+            p = marginal(prob, grp, result)
+            u = r2.random()
+            x = int("".join(bit[q] for q in grp), 2)
+            if p.sum() <= 0 or not cdf_consistent(u, p, x, 2e-3 if single else 1e-6):
+                return (f"second sample {b2} (after the gate): qubits {grp} given {result} inconsistent with the conditional of "
+                        f"the state of the gates applied so far at the uniform draw {u:.6f}")
+            for q in grp:
+                result[q] = bit[q]
+        return None
+
+    cx.check("sample: a generator advanced after apply_gate samples the state of the gates applied so far",
+             dict(params, phase="after-gate", gate_recorded=ok, distribution_changed=changed), second, nontrivial=changed)
+
+
+def q_sample_chaotic(P):
+    rng, N = P.rng, P.N
+    m = int(rng.integers(1, N + 1))
+    mq = tuple(sorted(_pick_qubits(rng, N, m)))
+    flat = P.prob.ravel()
+    x = int(rng.choice(len(flat), p=flat))
+    bits = format(x, f"0{N}b")
+    fix = {q: bits[q] for q in range(N) if q not in mq}
+    seed = int(rng.integers(0, 1 << 30))
+    C = int(rng.integers(1, 3))
+    kw = {}
+    if P.kind in ("Circuit", "CircuitDense") and rng.integers(0, 4):
+        kw["optimize"] = str(rng.choice(["greedy", "auto"]))
+    copied = P.flags["copied_since_gate"]
+
+    def thunk():
+        got = list(P.circ.sample_chaotic(C, mq, fix=fix if fix else None, seed=seed, **kw))
+        if len(got) != C:
+            return f"{len(got)} samples != {C}"
+        prob = P.prob
+        for b in got:
+            if len(b) != N or any(c not in "01" for c in b):
+                return f"sample {b!r}"
+            if any(b[q] != v for q, v in fix.items()):
+                return f"sample {b} does not carry the fixed outcomes {fix}"
+            if prob[tuple(int(c) for c in b)] < 1e-7:
+                return f"sample {b} has probability {prob[tuple(int(c) for c in b)]:.2e} in the reference state"
+        return None
+
+    return "sample_chaotic", dict(marginal=_fmt(mq), fixed=len(fix), C=C, copied_since_gate=copied,
+                                  opts=str(sorted(kw.items()))), thunk
+
+
+def q_sample_gate_by_gate(P):
+    rng, N = P.rng, P.N
+    C = int(rng.integers(1, 3))
+    seed = int(rng.integers(0, 1 << 30))
+    kw = {"group_size": int(rng.choice([1, 2, 3, 10]))}
+    if rng.integers(0, 4):
+        kw["optimize"] = str(rng.choice(["greedy", "auto"]))
+    copied = P.flags["copied_since_gate"]
+    has_raw = any(g[3] == "RAW" for g in P.glist)
+    has_ctrl = any(g[2] for g in P.glist)
+    ngates0 = len(P.glist) == 0
+    group_lt_gate = any(len(g[1]) > kw["group_size"] for g in P.glist)
+
+    def thunk():
+        got = list(P.circ.sample_gate_by_gate(C, seed=seed, **kw))
+        if len(got) != C:
+            return f"{len(got)} samples != {C}"
+        prob = P.prob
+        for b in got:
+            if len(b) != N or any(c not in "01" for c in b):
+                return f"sample {b!r}"
+            if prob[tuple(int(c) for c in b)] < 1e-7:
+                return f"sample {b} has probability {prob[tuple(int(c) for c in b)]:.2e} in the reference state"
+        return None
+
+    return "sample_gate_by_gate", dict(C=C, copied_since_gate=copied, has_raw=has_raw, has_controls=has_ctrl, no_gates=ngates0,
+                                       group_smaller_than_a_gate=group_lt_gate, opts=str(sorted(kw.items()))), thunk
+
+
+def q_simulate_counts(P):
+    rng, N = P.rng, P.N
+    C = int(rng.integers(1, 30))
+    seed = int(rng.integers(0, 1 << 30))
+
+    def thunk():
+        got = P.circ.simulate_counts(C, seed=seed)
+        if sum(got.values()) != C:
+            return f"counts sum to {sum(got.values())} != {C}"
+        prob = P.prob
+        for b in got:
+            if len(b) != N or prob[tuple(int(c) for c in b)] < 1e-9:
+                return f"counted string {b!r} has zero probability"
+        return None
+
+    return "simulate_counts", dict(C=C), thunk
+
+
+def q_psi_dense(P):
+    def thunk():
+        psi = P.circ.psi
+        got = np.asarray(psi.to_dense([f"k{i}" for i in range(P.N)]))
+        return close(got.reshape(-1), P.ref.reshape(-1), P.tol(), "circ.psi contracted")
+
+    return "psi.to_dense", {}, thunk
+
+
+def a_copy(P):
+    keep_copy = bool(P.rng.integers(0, 2))
+
+    def thunk():
+        new = P.circ.copy()
+        if new.num_gates != P.circ.num_gates:
+            return "copy has a different gate record"
+        got = np.asarray(new.to_dense()) if P.kind != "PEPO" else None
+        if keep_copy:
+            P.circ = new
+        if got is not None:
+            return close(got, P.ref.reshape(-1, 1), P.tol(), "to_dense of the copy")
+        return None
+
+    def after():
+        if keep_copy:
+            P.flags["copied_since_gate"] = True
+
+    return "copy", dict(keep_copy=keep_copy), thunk, after
+
+
+def a_set_params(P):
+    """change the parameters of parametrized gates (Circuit only)"""
+    rng = P.rng
+    idx = [k for k, g in enumerate(P.glist) if g[5]]
+    if not idx:
+        return None
+    chosen = [int(x) for x in rng.choice(idx, size=int(rng.integers(1, len(idx) + 1)), replace=False)]
+    new = {k: [float(x) for x in rng.uniform(-3.5, 3.5, size=len(P.glist[k][4]))] for k in chosen}
+    how = str(rng.choice(["set_params", "update_params_from_psi", "update_params_from_uni"]))
+    if how == "update_params_from_uni" and P.has_psi0:
+        how = "set_params"
+
+    def thunk():
+        circ = P.circ
+        if how == "set_params":
+            params = circ.get_params()
+            if sorted(params) != idx:
+                return f"get_params keys {sorted(params)} != parametrized gates {idx}"
+            for k, g in enumerate(P.glist):
+                if g[5] and not np.allclose(np.asarray(params[k], dtype=float), g[4]):
+                    return f"get_params[{k}] = {params[k]} != {g[4]}"
+            circ.set_params({k: np.array(v) for k, v in new.items()})
+        else:
+            tn = circ.psi if how.endswith("psi") else circ.uni
+            for k, v in new.items():
+                tn[f"GATE_{k}"].params = np.array(v)
+            circ.update_params_from(tn)
+        return None
+
+    def after():
+        for k, v in new.items():
+            g = P.glist[k]
+            g[4] = v
+            M = table_matrix(g[3], v)
+            if M is None:
+                M = np.asarray(P.qtn.Gate(g[3], v, qubits=list(range(len(g[1])))).array, dtype=complex).reshape(2 ** len(g[1]), -1)
+            g[0] = M
+        P.recompute()
+
+    has_special = any(g[3] in ("SWAP", "IDEN") for g in P.glist)
+    has_raw = any(g[3] == "RAW" for g in P.glist)
+    return how, dict(gates=_fmt(chosen), has_special=has_special, has_raw=has_raw,
+                     contract_true_gate=P.flags["contract_true_gate"]), thunk, after
+
+
+@driver("C07", "programs-vs-dense-reference", chunks=8, timeout=110,
+        bound="random programs on 1..6 qubits with <= 14 recorded gates over the whole registered vocabulary (random parameters in "
+              "[-3.5,3.5], or a sparse style of permutation / Clifford gates with special angles), raw 1-,2-,3-qubit unitaries "
+              "(matrix or tensor form, apply_gate / apply_gate_raw), 1..2 controls on 1- and 2-qubit gates, four spellings of "
+              "apply_gate(s), per-gate contract overrides, optional random MPS initial state; simulators Circuit (gate_contract "
+              "default / auto-split-gate / split-gate / swap-split-gate / False / True), CircuitDense, CircuitMPS (auto-mps / "
+              "swap+split / nonlocal; cutoff default or 0), CircuitPermMPS, CircuitMPSLazy (dm / direct / zipup, compress_every "
+              "1..3), CircuitPEPSSimpleUpdate and CircuitPEPOSimpleUpdate on line / ring / star / 2x2 / 2x3 graphs; queries "
+              "to_dense, amplitude, uni / get_uni(transposed), partial_trace, local_expectation (complex non-symmetric 1-/2-qubit "
+              "operators, operator lists, simplification / dtype / optimizer options), compute_marginal (fix), sample (qubits, "
+              "order, group_size), sample advanced across an apply_gate, sample_chaotic, sample_gate_by_gate, simulate_counts, "
+              "psi.to_dense, copy, set_params / update_params_from, interleaved with the gates; tolerances 1e-8 (exact / cutoff "
+              "0), 1e-4 (default cutoff 1e-10, simple update), 2e-4 (complex64)")
+def programs(cx):
+    import warnings
+
+    import quimb.tensor as qtn
+
+    warnings.filterwarnings("ignore")
+    if not _numpy_choice_assumption():
+        cx.inconclusive.append("numpy Generator.choice no longer inverts the cdf at one uniform draw")
+        return
+    nprog = 560 if cx.quick else 5000
+    only_h = _hist_from_key(cx.only_key) if cx.only_key is not None else None
+    skip_to = _hist_from_key(cx.resume_after) if cx.resume_after is not None else None
+    for pid in range(nprog):
+        if not cx.mine():
+            continue
+        if only_h is not None and pid != only_h:
+            continue
+        if skip_to is not None and pid <= skip_to:
+            continue
+        if cx.out_of_time():
+            cx.inconclusive.append(f"programs-vs-dense-reference: time budget exhausted at program {pid} of {nprog}")
+            return
+        rng = np.random.default_rng([cx.seed, 707, pid])
+        P = Prog(qtn, rng, pid)
+        P.step = 0
+        P.broken = None
+        ngates_max = int(rng.integers(2, 15))
+        nsteps = ngates_max + int(rng.integers(3, 12))
+        for step in range(nsteps):
+            P.step = step
+            if P.broken:
+                break
+            if len(P.glist) < ngates_max and rng.integers(0, 2):
+                do_gate(cx, P, make_gate(P))
+                continue
+            if not run_query(cx, P):
+                break
+
+
+def run_query(cx, P):
+    rng, kind = P.rng, P.kind
+    if kind in ("Circuit", "CircuitDense"):
+        menu = ["to_dense", "amplitude", "partial_trace", "local_expectation", "local_expectation", "compute_marginal", "sample",
+                "sample_interleaved", "sample_chaotic", "sample_gate_by_gate", "simulate_counts", "copy", "psi"]
+        if kind == "Circuit":
+            menu += ["set_params", "set_params"]
+            if P.U is not None:
+                menu += ["uni"]
+    elif kind in MPS_KINDS:
+        menu = ["to_dense", "amplitude", "partial_trace", "local_expectation", "local_expectation", "compute_marginal", "sample",
+                "sample_interleaved", "sample_chaotic", "copy"]
+    elif kind == "PEPS":
+        menu = ["to_dense", "to_dense", "copy"]
+    else:
+        menu = ["local_expectation", "local_expectation", "copy"]
+    act = str(rng.choice(menu))
+    if act == "sample_interleaved":
+        q_sample_interleaved(cx, P)
+        return True
+    made = {"to_dense": q_to_dense, "amplitude": q_amplitude, "partial_trace": q_partial_trace,
+            "local_expectation": q_local_expectation, "compute_marginal": q_compute_marginal, "sample": q_sample,
+            "sample_chaotic": q_sample_chaotic, "sample_gate_by_gate": q_sample_gate_by_gate,
+            "simulate_counts": q_simulate_counts, "copy": a_copy, "psi": q_psi_dense, "set_params": a_set_params,
+            "uni": q_uni}[act](P)
+    if made is None:
+        return True
+    name, extra, thunk = made[:3]
+    after = made[3] if len(made) > 3 else None
+    params = dict(P.base(), action=name, step=P.step, **extra)
+    params.setdefault("rejected_before", P.flags["rejected_before"])
+    box = {}
+
+    def run():
+        box["ran"] = True
+        return thunk()
+
+    r = cx.check(f"{name}: equals the same query on the dense reference state of the gates applied so far", params, run)
+    if "ran" not in box:
+        try:
+            thunk()
+        except Exception:  # noqa
+            return False
+    if r == "violation" and name in ("copy", "set_params", "update_params_from_psi", "update_params_from_uni"):
+        # the object may be half-updated: stop this program
+        for v in cx.violations[-1:]:
+            if "crash" in str(v.get("detail", "")) or "rejected" in str(v.get("detail", "")):
+                return False
+    if after is not None:
+        after()
+    return True
